@@ -373,6 +373,14 @@ func (w *World) finalChecks() {
 				return
 			}
 		}
+		// close every iterator that is still open (also those created in aborted transactions)
+		for _, ic := range w.allIters {
+			if !ic.closed {
+				if !w.closeIterator(t, ic) {
+					return
+				}
+			}
+		}
 	})
 	s.Run()
 }
